@@ -122,6 +122,7 @@ const (
 	stablePre   = "\x02s"
 	churnPre    = "\x02c"
 	growPre     = "\x70w"
+	padPre      = "\x01q" // filler of the two-layer batches, read by nobody
 )
 
 // present tells whether batch key i carries a value in generation g (the first
@@ -253,7 +254,42 @@ func (c *concCase) writer(cid int, r *rng.R, n int, batches bool) {
 		case x < 15 && batches:
 			g := int(c.issued.Add(1))
 			mem, st := batchMaps(g)
-			_ = c.top.PutChangeSet(mem, st)
+			if g%3 == 0 {
+				// the same batch through two private layers merged by one
+				// PersistPrivate call (as block storing does with its execution
+				// results and state changes): the first key of either map, and some
+				// padding that makes the first merge long, in one layer, the rest in
+				// the other - still one batch for every reader
+				p1, p2 := storage.NewPrivateMemCachedStore(c.top), storage.NewPrivateMemCachedStore(c.top)
+				put := func(l *storage.MemCachedStore, k string, v []byte) {
+					if v == nil {
+						l.Delete([]byte(k))
+					} else {
+						l.Put([]byte(k), v)
+					}
+				}
+				for k, v := range mem {
+					if k == batchMemPre+"0" {
+						put(p1, k, v)
+					} else {
+						put(p2, k, v)
+					}
+				}
+				for k, v := range st {
+					if k == batchStPre+"0" {
+						put(p1, k, v)
+					} else {
+						put(p2, k, v)
+					}
+				}
+				for j := 0; j < 400; j++ {
+					p1.Put([]byte(padPre+strconv.Itoa(j)), []byte{byte(g)})
+				}
+				c.top.PersistPrivate(p1, p2)
+				c.run.Obs("conc_batches_written_through_two_private_layers", 1)
+			} else {
+				_ = c.top.PutChangeSet(mem, st)
+			}
 			c.commit.Store(int64(g))
 			c.run.Obs("conc_batches_written", 1)
 		case x < 18 && batches:
@@ -584,37 +620,44 @@ func runConcCase(run *ev.Run, idx int, tmp string) {
 	stop := make(chan struct{})
 	var flushes, flushErr atomic.Int64
 	seedOf := func(k int) *rng.R { return rng.New(uint64(idx)*64 + uint64(k) + 29_000_000) }
-	flushers.Add(1)
-	go func() {
-		defer flushers.Done()
-		fr := seedOf(0)
-		for {
-			select {
-			case <-stop:
-				return
-			default:
+	// two flushers, as on a node where the periodic persist and the state-sync
+	// module's own flushes meet: flushes of one layer may overlap in time
+	for fk := 0; fk < 2; fk++ {
+		flushers.Add(1)
+		go func() {
+			defer flushers.Done()
+			fr := seedOf(0)
+			if fk == 1 {
+				fr = rng.New(uint64(idx)*64 + 29_900_000)
 			}
-			l := c.layers[fr.Intn(depth)]
-			var n int
-			var err error
-			if fr.Intn(8) == 0 {
-				n, err = l.PersistSync()
-			} else {
-				n, err = l.Persist()
+			for {
+				select {
+				case <-stop:
+					return
+				default:
+				}
+				l := c.layers[fr.Intn(depth)]
+				var n int
+				var err error
+				if fr.Intn(8) == 0 {
+					n, err = l.PersistSync()
+				} else {
+					n, err = l.Persist()
+				}
+				if err != nil && !errors.Is(err, errInjectedWriteFailure) {
+					flushErr.Add(1)
+				}
+				if n > 0 {
+					flushes.Add(1)
+				}
+				if fr.Intn(2) == 0 {
+					time.Sleep(time.Duration(fr.Intn(60)) * time.Microsecond)
+				} else {
+					runtime.Gosched()
+				}
 			}
-			if err != nil && !errors.Is(err, errInjectedWriteFailure) {
-				flushErr.Add(1)
-			}
-			if n > 0 {
-				flushes.Add(1)
-			}
-			if fr.Intn(2) == 0 {
-				time.Sleep(time.Duration(fr.Intn(60)) * time.Microsecond)
-			} else {
-				runtime.Gosched()
-			}
-		}
-	}()
+		}()
+	}
 	nW, nR := ev.Pick(90, 120), ev.Pick(60, 80)
 	spawn := func(f func()) {
 		clients.Add(1)
